@@ -484,7 +484,7 @@ impl Circle2 {
             return None;
         }
 
-        let angle = f64::asin(self.ball.radius / d);
+        let angle = f64::acos(self.ball.radius / d);
         let theta = f64::atan2(point.y - self.center.y, point.x - self.center.x);
 
         let p0 = Point2::new(
